@@ -20,6 +20,7 @@ type OpOptions struct {
 	Variables            bool
 	Mutation             bool
 	ForceMutation        bool
+	ForceSubscription    bool // one root field of the Subscription type
 	VarDefaults          bool // client-declared default values relied upon
 	DirectiveVars        bool // @skip/@include(if: $v)
 	Directives           bool // @skip/@include with literal values
@@ -292,6 +293,9 @@ func Operation(rng *rand.Rand, schema *ast.Schema, opt OpOptions) GenOp {
 	if schema.Mutation != nil && (opt.ForceMutation || (opt.Mutation && rng.Intn(4) == 0)) {
 		kind, root = "mutation", schema.Mutation
 	}
+	if schema.Subscription != nil && opt.ForceSubscription {
+		kind, root = "subscription", schema.Subscription
+	}
 	depth := 1 + rng.Intn(opt.MaxDepth)
 	var body string
 	if kind == "query" && opt.NodeRoot && len(opt.IDs) > 0 && rng.Intn(3) == 0 {
@@ -310,7 +314,11 @@ func Operation(rng *rand.Rand, schema *ast.Schema, opt OpOptions) GenOp {
 		}
 	}
 	if body == "" {
-		parts := g.fieldsFor(root, depth, 1+rng.Intn(3))
+		nroot := 1 + rng.Intn(3)
+		if kind == "subscription" {
+			nroot = 1
+		}
+		parts := g.fieldsFor(root, depth, nroot)
 		if opt.RootTypename && rng.Intn(6) == 0 {
 			parts = append(parts, "__typename")
 			g.feat["root_typename"] = true
